@@ -121,7 +121,8 @@ func (d *vfFlowCli) settle() {
 		d.dead = true
 		d.emit(map[string]any{"e": "e_closed"})
 	}
-	d.emit(map[string]any{"e": "q", "unsent": d.tc.cc.VfConnUnsent()})
+	avail, savail := d.tc.cc.VfRecvWindows()
+	d.emit(map[string]any{"e": "q", "unsent": d.tc.cc.VfConnUnsent(), "avail": avail, "savail": savail})
 }
 
 func (d *vfFlowCli) async(r *vfFlowReq, f func() map[string]any) {
@@ -177,6 +178,11 @@ func vfFlowClientScenario(tb testing.TB, env *vfEnv, tn int, rnd *rand.Rand) {
 
 	unit := []int{1, 100, 4096, 16384, 70000}[rnd.Intn(5)]
 	nops := env.Int("ops", 40)
+	readHeavy := tn%3 == 0
+	if readHeavy {
+		unit = []int{100, 1000, 4096}[rnd.Intn(3)]
+		nops += 30
+	}
 	for k := 0; k < nops && !d.dead; k++ {
 		var open []*vfFlowReq
 		for _, id := range d.order {
@@ -184,6 +190,24 @@ func vfFlowClientScenario(tb testing.TB, env *vfEnv, tn int, rnd *rand.Rand) {
 		}
 		pick := func() *vfFlowReq { return open[rnd.Intn(len(open))] }
 		x := rnd.Intn(100)
+		if readHeavy {
+			// several concurrent responses, many reads of mixed sizes: stream- and connection-level
+			// credit get out of step with each other
+			noHdr := false
+			for _, r := range open {
+				if !r.hdrSent && !r.peerEnd {
+					noHdr = true
+				}
+			}
+			switch {
+			case len(d.order) < 3 && d.pend == nil:
+				x = 5
+			case noHdr:
+				x = 35
+			default:
+				x = []int{50, 65, 65, 50, 65, 80, 65}[rnd.Intn(7)]
+			}
+		}
 		switch {
 		case x < 10 || len(open) == 0:
 			if len(d.order) >= 6 || d.pend != nil {
@@ -240,7 +264,17 @@ func vfFlowClientScenario(tb testing.TB, env *vfEnv, tn int, rnd *rand.Rand) {
 				room = d.sa[r.id]
 			}
 			ln := rnd.Intn(3)*unit + rnd.Intn(4)
-			switch rnd.Intn(10) {
+			bsel := rnd.Intn(10)
+			if room < 200000 && rnd.Intn(3) == 0 {
+				bsel = rnd.Intn(3)
+			}
+			if readHeavy {
+				bsel = 3 + rnd.Intn(7) // a connection error would end the scenario
+				if bsel == 3 {
+					bsel = 0
+				}
+			}
+			switch bsel {
 			case 0:
 				ln = int(room)
 			case 1:
@@ -263,7 +297,7 @@ func vfFlowClientScenario(tb testing.TB, env *vfEnv, tn int, rnd *rand.Rand) {
 					pad = ln
 				}
 			}
-			es := rnd.Intn(5) == 0
+			es := rnd.Intn(5) == 0 && !readHeavy
 			pay := make([]byte, ln-pad)
 			for i := range pay {
 				pay[i] = vfPat(r.id, r.sentPay+i)
